@@ -28,6 +28,8 @@ def payload(t):
     """the marker of a test message inside a relayed PRIVMSG line, or None"""
     if " PRIVMSG #c " in t and "m-" in t:
         return t.split(" PRIVMSG #c ", 1)[1].lstrip(":")
+    if " PONG " in t and "m-" in t:
+        return t.rsplit(" ", 1)[1].lstrip(":")
     return None
 
 
@@ -53,6 +55,13 @@ def single_scenario(rng, length):
             n += 1
             cm[who] += 1
             mark = "m-%s-%04d" % (who, n)
+            if who == "c" and rng.random() < 0.35:
+                # a keepalive from b itself: the PONG must reach b exactly once, too
+                cm["b"] += 1
+                mark = "m-b-%04d" % n
+                ops.append("post b ok %d %s" % (cm["b"], hx("PING " + mark)))
+                posts.append((len(ops) - 1, "b", mark))
+                continue
             ops.append("post %s ok %d %s" % (who, cm[who], hx("PRIVMSG #c :" + mark)))
             posts.append((len(ops) - 1, who, mark))
             if rng.random() < 0.25:
@@ -74,8 +83,10 @@ def single_scenario(rng, length):
             # younger than the horizon in reality; the harness moves the horizon instead of waiting)
             ops.insert(len(ops) - 1, "get b ok @")
             reads.append(len(ops) - 2)
+    # every scenario ends with: read, ordinary snapshot, SIGKILL, (new process) read again
     ops.append("get b ok @")
     reads.append(len(ops) - 1)
+    ops += ["snapshot", "kill"]
     ops.append("get b ok @")
     reads.append(len(ops) - 1)
     return ops, posts, reads
@@ -125,10 +136,17 @@ def judge_single(ops, posts, reads, gl):
                 return "lost", "acknowledged message %s (POST answered 200) never reached the other channel member" % mark, ops
         if c > 1:
             return "duplicate", "acknowledged message %s was delivered %d times" % (mark, c), ops
+    # what the node serves at the end (full read from 0.0): everything acknowledged since the last forced
+    # compaction must still be there, exactly once (kills, restarts and ordinary snapshots lose nothing)
+    last_comp = max(compacted_at) if compacted_at else -1
+    final = [payload(t) for (i, r, t) in texts_of(gl[reads[-1]]) if payload(t)]
+    for (i, who, mark) in acked:
+        if i > last_comp and final.count(mark) != 1:
+            return "final", "acknowledged message %s is served %d times by the node after the faults (posted after the last compaction)" % (mark, final.count(mark)), ops
     for mark in unacked:
         if marks.count(mark) > 1:
             return "duplicate", "message %s was delivered %d times" % (mark, marks.count(mark)), ops
-    for who in "ac":
+    for who in "abc":
         mine = [m for m in marks if m.startswith("m-%s-" % who)]
         if mine != sorted(mine):
             return "reorder", "messages of one sender were delivered out of posting order: %s" % mine[:10], ops
@@ -299,6 +317,26 @@ def check(run):
     run.obligation("resume on a lagging node after fail-over: exactly the messages after lastseen (%d resumes)" % hn, hbad is None, hbad[1] if hbad else "")
     if hbad and not bad:
         bad = ("harness" if hbad[0] == "harness" else "resume-" + hbad[0], hbad[1], hbad[2])
+    # slow disk: the commit of a POST takes longer than the handler's timeout; whatever the client is told, a
+    # retry with the same id must not lead to a second delivery (run when the ack-after-commit facts changed,
+    # and in the thorough tier: it takes 12 s)
+    if (not proved or run.tier == "thorough") and not bad:
+        sops = list(api_run.BOOT) + ["create a", "create b"]
+        k = 10
+        for who, nick in (("a", "alice"), ("b", "bob")):
+            for text in ("NICK " + nick, "USER u 0 * :real", "JOIN #c"):
+                k += 1
+                sops.append("post %s ok %d %s" % (who, k, hx(text)))
+        sops += ["stall 10600", "post a ok 50 " + hx("PRIVMSG #c :m-a-0001"), "post a ok 50 " + hx("PRIVMSG #c :m-a-0001"), "sleep 1500", "get b ok 0.0"]
+        sl, serr = api_run.run_ops(exe, sops, tag="c05s", timeout=120)
+        evals += len(sops)
+        if serr or len(sl) != len(sops):
+            bad = ("harness", serr or "short output", sops)
+        else:
+            cnt = [payload(t) for (i, r, t) in texts_of(sl[-1])].count("m-a-0001")
+            run.obligation("slow commit (raft log write stalls 10.6 s): the POST and its retry lead to exactly one delivery (answers: %s / %s)" % (kv(sl[-4]).get("status"), kv(sl[-3]).get("status")), cnt == 1, "delivered %d times" % cnt)
+            if cnt != 1:
+                bad = ("slow-commit", "a POST whose commit was slow was answered %s, its retry %s, and the message was delivered %d times" % (kv(sl[-4]).get("status"), kv(sl[-3]).get("status"), cnt), sops)
     # three nodes of real binaries
     nbad, nnet, nlen = None, (1 if run.tier == "quick" else 4), (14 if run.tier == "quick" else 45)
     okn, nexe, bindir, nout = build_net(run)
